@@ -285,11 +285,15 @@ def step (g : Guards) (st : St) (line : String) : St × String :=
     | none => (st, "bad-op")
   | _ => (st, "bad-op")
 
-/-- the code as it is in /repo -/
+/-- the code as it is in /repo (after the fix commits 2741478, 675d3b1, 178db83, 87032be, 16c2a8d) -/
 def proto : OxiddModel.Proto := { σ := St, init := {}, step := step Guards.code }
 
-/-- the code with the repairs of /verif/work/proposed_fixes/Dddmp-{1,2,3,4}.diff applied
-(register as `dddmp` instead of `proto` once they are in /repo) -/
+/-- the code with the one repair that was not applied (exporter: binary mode only if every terminal
+is displayed as `T`, /verif/work/proposed_fixes/Dddmp-2.diff, export hunk); to be registered as
+`dddmp` instead of `proto` if that lands -/
 def protoFixed : OxiddModel.Proto := { σ := St, init := {}, step := step Guards.all }
+
+/-- the code before the fix commits (regression runs on an old tree only) -/
+def protoBefore : OxiddModel.Proto := { σ := St, init := {}, step := step Guards.before }
 
 end OxiddModel.Dddmp
